@@ -1,7 +1,9 @@
 // Executor for property C02 (wrappers): drives the real rest/handler.SheddingHandler
-//   kind "rest":  one request at a time against a recording Shedder (every outcome class);
-//   kind "wrest": overlapping requests against ONE long-lived real load.NewAdaptiveShedder behind a
-//                 forwarding Shedder (virtual clock, injected CPU gauge), handlers blocked on gates.
+//
+//	kind "rest":  one request at a time against a recording Shedder (every outcome class);
+//	kind "wrest": overlapping requests against ONE long-lived real load.NewAdaptiveShedder behind a
+//	              forwarding Shedder (virtual clock, injected CPU gauge), handlers blocked on gates.
+//
 // Injected with `go test -overlay`; never written under /repo.
 package handler
 
@@ -54,11 +56,12 @@ type c02RestCase struct {
 	Kind string       `json:"kind"`
 	Reqs []c02RestReq `json:"reqs"`
 	// kind wrest
-	Window    int64   `json:"window"`
-	Buckets   int     `json:"buckets"`
-	Threshold int64   `json:"threshold"`
-	T0        int64   `json:"t0"`
-	Ops       [][]any `json:"ops"` // ["start", now, cpu, reqIndex] | ["finish", opIndex, now]
+	Window    int64    `json:"window"`
+	Buckets   int      `json:"buckets"`
+	Threshold int64    `json:"threshold"`
+	T0        int64    `json:"t0"`
+	Omit      []string `json:"omit"` // options not passed to the constructor (the case carries the defaults)
+	Ops       [][]any  `json:"ops"`  // ["start", now, cpu, reqIndex] | ["finish", opIndex, now]
 }
 
 // ---- kind wrest ---------------------------------------------------------------
@@ -139,8 +142,21 @@ func c02Peek(sh load.Shedder) (int64, float64) {
 func c02RunWrest(c c02RestCase, metrics *stat.Metrics) (obs []c02WObs, stable bool, err string) {
 	stable = true
 	timex.SetFakeNow(time.Duration(c.T0))
-	real := load.NewAdaptiveShedder(load.WithWindow(time.Duration(c.Window)), load.WithBuckets(c.Buckets),
-		load.WithCpuThreshold(c.Threshold))
+	omit := map[string]bool{}
+	for _, o := range c.Omit {
+		omit[o] = true
+	}
+	var opts []load.ShedderOption
+	if !omit["window"] {
+		opts = append(opts, load.WithWindow(time.Duration(c.Window)))
+	}
+	if !omit["buckets"] {
+		opts = append(opts, load.WithBuckets(c.Buckets))
+	}
+	if !omit["threshold"] {
+		opts = append(opts, load.WithCpuThreshold(c.Threshold))
+	}
+	real := load.NewAdaptiveShedder(opts...)
 	fwd := &c02Fwd{real: real}
 	flights := map[int]*c02Flight{}
 	defer func() {
